@@ -8,7 +8,7 @@ from . import common, coqterm, gen, execgen, c01, sched
 from .c04 import fresh_schema_name
 from .coqterm import coq_list, coq_string, coq_option, coq_bool
 
-C08_FILES = ["Properties/C08.v", "Proofs/AsyncProofs.v", "Proofs/AsyncBridge.v", "Proofs/ExecRefine.v", "Proofs/MixedFields.v"]
+C08_FILES = ["Properties/C08.v", "Proofs/AsyncProofs.v", "Proofs/AsyncBridge.v", "Proofs/ExecRefine.v", "Proofs/MixedFields.v", "Proofs/ExecCalls.v"]
 CONFIGS = [{"parent": p, "list": l, "args": a} for p in (True, False) for l in (True, False) for a in ("gather", "sync")]
 # per-field parent_concurrently / list_concurrently settings (a third of the fields concurrent, a third sequential, a
 # third left to the engine default), over both engine defaults; the model's configuration carries the same table
